@@ -192,8 +192,8 @@ struct Acc {
     vios: VioSet,
     evals: u64,
     parses: u64,
-    inputs: BTreeSet<u64>,
-    nontrivial: BTreeSet<u64>,
+    inputs: u64,
+    nontrivial: u64,
     dropped: u64,
     kept: u64,
     samples: Vec<serde_json::Value>,
@@ -204,17 +204,20 @@ pub fn target_lists(alpha: &[&'static str]) -> Vec<Vec<&'static str>> {
     (0..(1u32 << n)).map(|m| (0..n).filter(|i| m & (1 << i) != 0).map(|i| alpha[i]).collect()).collect()
 }
 
-fn judge(exprs: &[E], t: &[&str], cfg_first: bool, levels: &[usize], acc: &mut Acc) {
+/// `first_of_input`: true for exactly one (target list, order) per attribute set, so inputs are counted once.
+fn judge(exprs: &[E], t: &[&str], cfg_first: bool, levels: &[usize], first_of_input: bool, acc: &mut Acc) {
     let (k, shape) = keep(exprs, t);
     let rendered = attrs(exprs);
     acc.parses += 2;
-    acc.inputs.insert(report::fnv64(&rendered));
+    if first_of_input {
+        acc.inputs += 1;
+    }
     match observe(exprs, t, cfg_first) {
         Ok(obs) => {
             for &lv in levels {
                 acc.evals += 1;
                 if !t.is_empty() && !keep(exprs, &[]).1.starts_with("plain_in=0,plain_out=0,neg_in=0,neg_out=0") {
-                    acc.nontrivial.insert(report::fnv64(&format!("{rendered}|{t:?}|{lv}")));
+                    acc.nontrivial += 1;
                 }
                 match obs[lv] {
                     Some(o) if o == k => {
@@ -249,8 +252,8 @@ fn judge(exprs: &[E], t: &[&str], cfg_first: bool, levels: &[usize], acc: &mut A
 }
 
 fn merge(rep: &mut Report, name: &str, accs: Vec<Acc>, stats: crate::explore::ExploreStats, extra: serde_json::Value) {
-    let mut inputs = BTreeSet::new();
-    let mut nontrivial = BTreeSet::new();
+    let mut inputs = 0u64;
+    let mut nontrivial = 0u64;
     let (mut evals, mut parses, mut kept, mut dropped) = (0, 0, 0, 0);
     for a in accs {
         rep.vios.merge(a.vios);
@@ -258,8 +261,8 @@ fn merge(rep: &mut Report, name: &str, accs: Vec<Acc>, stats: crate::explore::Ex
         parses += a.parses;
         kept += a.kept;
         dropped += a.dropped;
-        inputs.extend(a.inputs);
-        nontrivial.extend(a.nontrivial);
+        inputs += a.inputs;
+        nontrivial += a.nontrivial;
         for s in a.samples.into_iter().take(1) {
             rep.sample(s);
         }
@@ -267,13 +270,13 @@ fn merge(rep: &mut Report, name: &str, accs: Vec<Acc>, stats: crate::explore::Ex
     for d in &stats.divergences {
         rep.machinery(format!("explorer divergence: {d}"));
     }
-    rep.cov(name, json!({"executions": stats.executions, "distinct_cfg_attribute_sets": inputs.len(), "judgements": evals, "parses": parses,
+    rep.cov(name, json!({"executions": stats.executions, "distinct_cfg_attribute_sets": inputs, "judgements": evals, "parses": parses,
         "kept": kept, "dropped": dropped, "choice_points": stats.choice_points, "exhaustive": !stats.cap_hit, "bounds": extra}));
     rep.cov_add("evaluations", evals);
-    rep.cov_add("states", inputs.len() as u64);
+    rep.cov_add("states", inputs);
     rep.cov_add("transitions", stats.choice_points);
     rep.cov_add("traces_validated_against_impl", parses);
-    rep.cov_add("distinct_nontrivial", nontrivial.len() as u64);
+    rep.cov_add("distinct_nontrivial", nontrivial);
     rep.cov_add("dropped_elements", dropped);
     rep.cov_add("kept_elements", kept);
 }
@@ -318,7 +321,7 @@ pub fn run(args: &[String]) -> i32 {
                 let e = gen_expr(ch, depth_a, &LEAVES_FULL);
                 let ti = ch.choose("targets", lists.len());
                 let first = ch.flag("cfg_before_typeshare");
-                judge(&[e], &lists[ti], first, levels, acc);
+                judge(&[e], &lists[ti], first, levels, ti == 0 && !first, acc);
             },
             Mode::Product,
             4,
@@ -339,7 +342,7 @@ pub fn run(args: &[String]) -> i32 {
                 let e1 = gen_expr(ch, 1, &LEAVES_FULL);
                 let e2 = gen_expr(ch, 1, &LEAVES_FULL);
                 let ti = ch.choose("targets", lists.len());
-                judge(&[e1, e2], &lists[ti], false, levels, acc);
+                judge(&[e1, e2], &lists[ti], false, levels, ti == 0, acc);
             },
             Mode::Product,
             4,
@@ -362,7 +365,7 @@ pub fn run(args: &[String]) -> i32 {
                 };
                 let es = vec![wrap(ch), wrap(ch), wrap(ch)];
                 let ti = ch.choose("targets", lists.len());
-                judge(&es, &lists[ti], false, levels, acc);
+                judge(&es, &lists[ti], false, levels, ti == 0, acc);
             },
             Mode::Product,
             4,
@@ -384,7 +387,7 @@ pub fn run(args: &[String]) -> i32 {
                 let e = gen_expr(ch, 3, &LEAVES_REDUCED);
                 // the unfiltered list is covered above; skip the empty list here
                 let ti = 1 + ch.choose("targets", lists.len() - 1);
-                judge(&[e], &lists[ti], false, levels, acc);
+                judge(&[e], &lists[ti], false, levels, ti == 1, acc);
             },
             Mode::Product,
             5,
@@ -394,7 +397,7 @@ pub fn run(args: &[String]) -> i32 {
         merge(&mut rep, "single_attribute_depth4_reduced", accs, stats, json!({"expr_depth": 4, "leaves": 3, "target_lists": 7, "levels": 8}));
     }
     rep.cov("exhaustive", json!(true));
-    rep.cov("rule", json!("every cfg expression of the grammar up to the stated depth × every target list × 8 attachment levels, each parsed by the real parser::parse with ParseContext.target_os; non-trivial = the expression names at least one target_os and the target list is non-empty; distinct by (attribute text, target list, level). states = distinct cfg attribute sets, transitions = explorer choice points"));
+    rep.cov("rule", json!("every cfg expression of the grammar up to the stated depth × every target list × 8 attachment levels, each parsed by the real parser::parse with ParseContext.target_os; non-trivial = the expression names at least one target_os and the target list is non-empty; distinct by (attribute text, target list, level) — each such triple is generated exactly once by the enumeration, so the count is a plain counter. states = distinct cfg attribute sets, transitions = explorer choice points"));
     rep.assume("the documented rule is taken from the property statement / docs/src/usage/target_os.md and evaluated on the generator's AST");
     rep.assume("attachment to tuple-variant payloads and newtype fields is not part of the documented levels");
     rep.finish()
